@@ -816,7 +816,9 @@ def step (st : DState) (line : String) : DState × Option String :=
     let spec := if A.trans.length > 3000 then "S ok (partition check skipped: automaton too large)"
       else if goodPartitionCheck A (finalPartition A) then "S ok final partition is a stable, homogeneous, disjoint cover"
       else "S note the partition the model's refinement ends with is not a stable homogeneous disjoint cover"
-    (st, some ("minimize done\n" ++ note ++ "\n" ++ spec))
+    let hyps := decide (0 < A.trans.length) && !A.isEnd 0 && A.trans.all fun ts => ts.all fun p => decide (p.2 < A.trans.length)
+    let dec := if decide (B = M) && hyps then "\nS ok trackA decides: logged output = model output, acceptance preserved for every word by minimize_preserves_all" else ""
+    (st, some ("minimize done\n" ++ note ++ "\n" ++ spec ++ dec))
   | ["idbits", sb, gb] =>
     (st, some (match sb.toNat?, gb.toNat? with
       | some sb, some gb =>
